@@ -1,3 +1,381 @@
 //! Verification hooks: re-exports of crate-internal functions for the external
 //! correspondence harness. Compiled only with `--cfg crypto_bigint_verif`.
 #![allow(missing_docs, clippy::missing_docs_in_private_items)]
+#![allow(dead_code, clippy::too_many_arguments, clippy::type_complexity)]
+
+use crate::{
+    ConstChoice, Limb, Odd, Reciprocal, Uint, Word,
+    modular::{ConstMontyForm, ConstMontyParams, MontyForm},
+};
+
+#[cfg(feature = "alloc")]
+use crate::{BoxedUint, modular::BoxedMontyForm};
+
+// ---------------------------------------------------------------------------------------------
+// C05: crate-internal one-bit / sub-limb shifts
+// ---------------------------------------------------------------------------------------------
+
+pub fn uint_shl_limb<const L: usize>(x: &Uint<L>, shift: u32) -> (Uint<L>, Limb) {
+    x.shl_limb(shift)
+}
+pub fn uint_overflowing_shl1<const L: usize>(x: &Uint<L>) -> (Uint<L>, Limb) {
+    x.overflowing_shl1()
+}
+pub fn uint_shr1_with_carry<const L: usize>(x: &Uint<L>) -> (Uint<L>, ConstChoice) {
+    x.shr1_with_carry()
+}
+pub fn uint_shr1<const L: usize>(x: &Uint<L>) -> Uint<L> {
+    x.shr1()
+}
+#[cfg(feature = "alloc")]
+pub fn boxed_shl_limb(x: &BoxedUint, shift: u32) -> (BoxedUint, Limb) {
+    x.shl_limb(shift)
+}
+#[cfg(feature = "alloc")]
+pub fn boxed_overflowing_shl1(x: &BoxedUint) -> (BoxedUint, Limb) {
+    x.overflowing_shl1()
+}
+#[cfg(feature = "alloc")]
+pub fn boxed_shr1(x: &BoxedUint) -> BoxedUint {
+    x.shr1()
+}
+
+// ---------------------------------------------------------------------------------------------
+// C07: modular helpers without a public entry point
+// ---------------------------------------------------------------------------------------------
+
+/// `Uint::sub_mod_with_carry`: `(x, carry) - rhs mod p`
+pub fn uint_sub_mod_with_carry<const L: usize>(
+    x: &Uint<L>,
+    carry: Limb,
+    rhs: &Uint<L>,
+    p: &Uint<L>,
+) -> Uint<L> {
+    x.sub_mod_with_carry(carry, rhs, p)
+}
+/// `BoxedUint::sub_assign_mod_with_carry` on a copy of `x`
+#[cfg(feature = "alloc")]
+pub fn boxed_sub_assign_mod_with_carry(
+    x: &BoxedUint,
+    carry: Limb,
+    rhs: &BoxedUint,
+    p: &BoxedUint,
+) -> BoxedUint {
+    let mut x = x.clone();
+    x.sub_assign_mod_with_carry(carry, rhs, p);
+    x
+}
+/// `uint::mul_mod::mac_by_limb`: `a + b * c + carry`
+pub fn uint_mac_by_limb<const L: usize>(
+    a: &Uint<L>,
+    b: &Uint<L>,
+    c: Limb,
+    carry: Limb,
+) -> (Uint<L>, Limb) {
+    crate::uint::verif_mac_by_limb(a, b, c, carry)
+}
+/// `uint::boxed::mul_mod::mac_by_limb`
+#[cfg(feature = "alloc")]
+pub fn boxed_mac_by_limb(
+    a: &BoxedUint,
+    b: &BoxedUint,
+    c: Limb,
+    carry: Limb,
+) -> (BoxedUint, Limb) {
+    crate::uint::boxed::verif_boxed_mac_by_limb(a, b, c, carry)
+}
+/// `modular::div_by_2::div_by_2`
+pub fn div_by_2<const L: usize>(a: &Uint<L>, modulus: &Odd<Uint<L>>) -> Uint<L> {
+    crate::modular::verif_div_by_2(a, modulus)
+}
+/// `modular::div_by_2::div_by_2_boxed`
+#[cfg(feature = "alloc")]
+pub fn div_by_2_boxed(a: &BoxedUint, modulus: &Odd<BoxedUint>) -> BoxedUint {
+    crate::modular::verif_div_by_2_boxed(a, modulus)
+}
+/// `modular::div_by_2::div_by_2_boxed_assign`
+#[cfg(feature = "alloc")]
+pub fn div_by_2_boxed_assign(a: &mut BoxedUint, modulus: &Odd<BoxedUint>) {
+    crate::modular::verif_div_by_2_boxed_assign(a, modulus)
+}
+
+// ---------------------------------------------------------------------------------------------
+// C08: Montgomery reduction / almost Montgomery multiplication on raw limb slices.
+// The private parameter fields are read with `MontyParams::verif_fields()` and
+// `BoxedMontyParams::verif_fields()` = `(one, r2, r3, mod_neg_inv, mod_leading_zeros)`.
+// ---------------------------------------------------------------------------------------------
+
+/// `modular::reduction::montgomery_reduction_inner`; returns `meta_carry`
+pub fn montgomery_reduction_inner(
+    upper: &mut [Limb],
+    lower: &mut [Limb],
+    modulus: &[Limb],
+    mod_neg_inv: Limb,
+) -> Limb {
+    crate::modular::verif_montgomery_reduction_inner(upper, lower, modulus, mod_neg_inv)
+}
+/// `modular::boxed_monty_form::mul::almost_montgomery_mul` (accumulates into `z`)
+#[cfg(feature = "alloc")]
+pub fn almost_montgomery_mul(z: &mut [Limb], x: &[Limb], y: &[Limb], m: &[Limb], k: Limb) {
+    crate::modular::boxed_monty_form::almost_montgomery_mul(z, x, y, m, k)
+}
+/// `modular::boxed_monty_form::mul::almost_montgomery_mul_by_one` (accumulates into `z`)
+#[cfg(feature = "alloc")]
+pub fn almost_montgomery_mul_by_one(z: &mut [Limb], x: &[Limb], m: &[Limb], k: Limb) {
+    crate::modular::boxed_monty_form::almost_montgomery_mul_by_one(z, x, m, k)
+}
+/// `modular::mul::mul_montgomery_form`
+pub fn mul_montgomery_form<const L: usize>(
+    a: &Uint<L>,
+    b: &Uint<L>,
+    modulus: &Odd<Uint<L>>,
+    mod_neg_inv: Limb,
+) -> Uint<L> {
+    crate::modular::verif_mul_montgomery_form(a, b, modulus, mod_neg_inv)
+}
+/// `modular::mul::square_montgomery_form`
+pub fn square_montgomery_form<const L: usize>(
+    a: &Uint<L>,
+    modulus: &Odd<Uint<L>>,
+    mod_neg_inv: Limb,
+) -> Uint<L> {
+    crate::modular::verif_square_montgomery_form(a, modulus, mod_neg_inv)
+}
+
+// ---------------------------------------------------------------------------------------------
+// C03: limb-slice multiplication routines of the boxed Karatsuba
+// ---------------------------------------------------------------------------------------------
+
+#[cfg(feature = "alloc")]
+pub const KARATSUBA_MIN_STARTING_LIMBS: usize =
+    crate::uint::mul::karatsuba::KARATSUBA_MIN_STARTING_LIMBS;
+#[cfg(feature = "alloc")]
+pub const KARATSUBA_MAX_REDUCE_LIMBS: usize =
+    crate::uint::mul::karatsuba::KARATSUBA_MAX_REDUCE_LIMBS;
+
+/// `uint::mul::karatsuba::adc_mul_limbs`: `out += lhs * rhs`, returns the carry
+#[cfg(feature = "alloc")]
+pub fn adc_mul_limbs(lhs: &[Limb], rhs: &[Limb], out: &mut [Limb]) -> Limb {
+    crate::uint::mul::karatsuba::verif_adc_mul_limbs(lhs, rhs, out)
+}
+/// `uint::mul::karatsuba::karatsuba_mul_limbs`
+#[cfg(feature = "alloc")]
+pub fn karatsuba_mul_limbs(lhs: &[Limb], rhs: &[Limb], out: &mut [Limb], scratch: &mut [Limb]) {
+    crate::uint::mul::karatsuba::karatsuba_mul_limbs(lhs, rhs, out, scratch)
+}
+/// `uint::mul::karatsuba::karatsuba_square_limbs`
+#[cfg(feature = "alloc")]
+pub fn karatsuba_square_limbs(limbs: &[Limb], out: &mut [Limb], scratch: &mut [Limb]) {
+    crate::uint::mul::karatsuba::karatsuba_square_limbs(limbs, out, scratch)
+}
+
+// ---------------------------------------------------------------------------------------------
+// C16: hex pair decoder
+// ---------------------------------------------------------------------------------------------
+
+/// `uint::encoding::decode_hex_byte([hi, lo]) -> (byte, err)`
+pub fn decode_hex_byte(bytes: [u8; 2]) -> (u8, u16) {
+    crate::uint::encoding::decode_hex_byte(bytes)
+}
+
+// ---------------------------------------------------------------------------------------------
+// C02: single-limb division building blocks.
+// `Reciprocal::verif_fields()` = `(divisor_normalized, shift, reciprocal)`.
+// ---------------------------------------------------------------------------------------------
+
+/// `uint::div_limb::reciprocal` (the divisor must have its top bit set)
+pub fn reciprocal(d: Word) -> Word {
+    crate::uint::div_limb::reciprocal(d)
+}
+/// `uint::div_limb::short_div`
+pub fn short_div(dividend: u32, dividend_bits: u32, divisor: u32, divisor_bits: u32) -> u32 {
+    crate::uint::div_limb::verif_short_div(dividend, dividend_bits, divisor, divisor_bits)
+}
+/// `uint::div_limb::div2by1 -> (quotient, remainder)`
+pub fn div2by1(u1: Word, u0: Word, reciprocal: &Reciprocal) -> (Word, Word) {
+    crate::uint::div_limb::div2by1(u1, u0, reciprocal)
+}
+/// `uint::div_limb::div3by2`
+pub fn div3by2(u2: Word, u1: Word, u0: Word, v1_reciprocal: &Reciprocal, v0: Word) -> Word {
+    crate::uint::div_limb::div3by2(u2, u1, u0, v1_reciprocal, v0)
+}
+/// `uint::div_limb::div_rem_limb_with_reciprocal`
+pub fn div_rem_limb_with_reciprocal<const L: usize>(
+    u: &Uint<L>,
+    reciprocal: &Reciprocal,
+) -> (Uint<L>, Limb) {
+    crate::uint::div_limb::div_rem_limb_with_reciprocal(u, reciprocal)
+}
+/// `uint::div_limb::rem_limb_with_reciprocal`
+pub fn rem_limb_with_reciprocal<const L: usize>(u: &Uint<L>, reciprocal: &Reciprocal) -> Limb {
+    crate::uint::div_limb::rem_limb_with_reciprocal(u, reciprocal)
+}
+/// `uint::div_limb::rem_limb_with_reciprocal_wide`
+pub fn rem_limb_with_reciprocal_wide<const L: usize>(
+    lo_hi: (&Uint<L>, &Uint<L>),
+    reciprocal: &Reciprocal,
+) -> Limb {
+    crate::uint::div_limb::rem_limb_with_reciprocal_wide(lo_hi, reciprocal)
+}
+
+// ---------------------------------------------------------------------------------------------
+// C09: pow / multi-exponentiation / lincomb internals
+// ---------------------------------------------------------------------------------------------
+
+/// The table width of the fixed-width exponentiation (`1 << WINDOW` powers per base).
+pub const POW_TABLE: usize = 16;
+
+/// `modular::pow::pow_montgomery_form`
+pub fn pow_montgomery_form<const L: usize, const R: usize>(
+    x: &Uint<L>,
+    exponent: &Uint<R>,
+    exponent_bits: u32,
+    modulus: &Odd<Uint<L>>,
+    one: &Uint<L>,
+    mod_neg_inv: Limb,
+) -> Uint<L> {
+    crate::modular::verif_pow_montgomery_form(x, exponent, exponent_bits, modulus, one, mod_neg_inv)
+}
+/// `modular::pow::compute_powers`: `[one, x, x^2, …, x^15]` in Montgomery form
+pub fn compute_powers<const L: usize>(
+    x: &Uint<L>,
+    modulus: &Odd<Uint<L>>,
+    one: &Uint<L>,
+    mod_neg_inv: Limb,
+) -> [Uint<L>; POW_TABLE] {
+    crate::modular::verif_compute_powers(x, modulus, one, mod_neg_inv)
+}
+/// `modular::pow::multi_exponentiate_montgomery_form_internal` on caller-provided power tables
+pub fn multi_exponentiate_montgomery_form_internal<const L: usize, const R: usize>(
+    powers_and_exponents: &[([Uint<L>; POW_TABLE], Uint<R>)],
+    exponent_bits: u32,
+    modulus: &Odd<Uint<L>>,
+    one: &Uint<L>,
+    mod_neg_inv: Limb,
+) -> Uint<L> {
+    crate::modular::verif_multi_exponentiate_montgomery_form_internal(
+        powers_and_exponents,
+        exponent_bits,
+        modulus,
+        one,
+        mod_neg_inv,
+    )
+}
+/// `modular::pow::multi_exponentiate_montgomery_form_array`
+pub fn multi_exponentiate_montgomery_form_array<const L: usize, const R: usize, const N: usize>(
+    bases_and_exponents: &[(Uint<L>, Uint<R>); N],
+    exponent_bits: u32,
+    modulus: &Odd<Uint<L>>,
+    one: &Uint<L>,
+    mod_neg_inv: Limb,
+) -> Uint<L> {
+    crate::modular::verif_multi_exponentiate_montgomery_form_array(
+        bases_and_exponents,
+        exponent_bits,
+        modulus,
+        one,
+        mod_neg_inv,
+    )
+}
+/// `modular::pow::multi_exponentiate_montgomery_form_slice`
+#[cfg(feature = "alloc")]
+pub fn multi_exponentiate_montgomery_form_slice<const L: usize, const R: usize>(
+    bases_and_exponents: &[(Uint<L>, Uint<R>)],
+    exponent_bits: u32,
+    modulus: &Odd<Uint<L>>,
+    one: &Uint<L>,
+    mod_neg_inv: Limb,
+) -> Uint<L> {
+    crate::modular::verif_multi_exponentiate_montgomery_form_slice(
+        bases_and_exponents,
+        exponent_bits,
+        modulus,
+        one,
+        mod_neg_inv,
+    )
+}
+/// `modular::boxed_monty_form::pow::pow_montgomery_form`
+#[cfg(feature = "alloc")]
+pub fn boxed_pow_montgomery_form(
+    x: &BoxedUint,
+    exponent: &BoxedUint,
+    exponent_bits: u32,
+    modulus: &BoxedUint,
+    one: &BoxedUint,
+    mod_neg_inv: Limb,
+) -> BoxedUint {
+    crate::modular::boxed_monty_form::verif_boxed_pow_montgomery_form(
+        x,
+        exponent,
+        exponent_bits,
+        modulus,
+        one,
+        mod_neg_inv,
+    )
+}
+
+/// ONE pass of `impl_longa_monty_lincomb!` over all `products` on a zeroed accumulator (no window
+/// splitting, no final subtraction); returns `(u, hi_carry)`.
+pub fn longa_monty_lincomb<const L: usize>(
+    products: &[(&MontyForm<L>, &MontyForm<L>)],
+    modulus: &Odd<Uint<L>>,
+    mod_neg_inv: Limb,
+) -> (Uint<L>, Limb) {
+    crate::modular::verif_longa_monty_lincomb(products, modulus, mod_neg_inv)
+}
+/// Boxed twin of [`longa_monty_lincomb`].
+#[cfg(feature = "alloc")]
+pub fn longa_boxed_monty_lincomb(
+    products: &[(&BoxedMontyForm, &BoxedMontyForm)],
+    modulus: &Odd<BoxedUint>,
+    mod_neg_inv: Limb,
+) -> (BoxedUint, Limb) {
+    crate::modular::verif_longa_boxed_monty_lincomb(products, modulus, mod_neg_inv)
+}
+/// `modular::lincomb::lincomb_monty_form` with a caller-chosen `mod_leading_zeros` (window size)
+pub fn lincomb_monty_form<const L: usize>(
+    products: &[(&MontyForm<L>, &MontyForm<L>)],
+    modulus: &Odd<Uint<L>>,
+    mod_neg_inv: Limb,
+    mod_leading_zeros: u32,
+) -> Uint<L> {
+    crate::modular::verif_lincomb_monty_form(products, modulus, mod_neg_inv, mod_leading_zeros)
+}
+/// `modular::lincomb::lincomb_const_monty_form`
+pub fn lincomb_const_monty_form<MOD: ConstMontyParams<L>, const L: usize>(
+    products: &[(ConstMontyForm<MOD, L>, ConstMontyForm<MOD, L>)],
+    modulus: &Odd<Uint<L>>,
+    mod_neg_inv: Limb,
+) -> Uint<L> {
+    crate::modular::verif_lincomb_const_monty_form(products, modulus, mod_neg_inv)
+}
+/// `modular::lincomb::lincomb_boxed_monty_form` with a caller-chosen `mod_leading_zeros`
+#[cfg(feature = "alloc")]
+pub fn lincomb_boxed_monty_form(
+    products: &[(&BoxedMontyForm, &BoxedMontyForm)],
+    modulus: &Odd<BoxedUint>,
+    mod_neg_inv: Limb,
+    mod_leading_zeros: u32,
+) -> BoxedUint {
+    crate::modular::verif_lincomb_boxed_monty_form(
+        products,
+        modulus,
+        mod_neg_inv,
+        mod_leading_zeros,
+    )
+}
+
+// ---------------------------------------------------------------------------------------------
+// C10: safegcd building blocks on plain arrays / slices of 62-bit limbs
+// (`UnsatInt<LIMBS>` = `[u64; LIMBS]`, `BoxedUnsatInt` = `[u64]`, `Matrix` = `[[i64; 2]; 2]`):
+// inv_mod2_62, iterations, jump, fg, de, divsteps, divsteps_vartime, unsat_* conversions and
+// arithmetic, inverter_fields, inverter_norm
+// ---------------------------------------------------------------------------------------------
+
+pub mod safegcd {
+    pub use crate::modular::safegcd::verif::*;
+}
+#[cfg(feature = "alloc")]
+pub mod safegcd_boxed {
+    pub use crate::modular::safegcd::boxed::verif::*;
+}
